@@ -45,11 +45,12 @@ class FxPool(Pool):
     supply = demand = 0
     utilisation = allocation = 1.0
 
-    def __init__(self, name="pool", fail=False, **extra):
+    def __init__(self, name="pool", fail=False, quiet=False, **extra):
         self.fx_name = name
         if fail:
             raise ValueError("fixture %s refuses to be constructed" % name)
-        _constructed(self, name)
+        if not quiet:
+            _constructed(self, name)
 
 
 class FxDeco(PoolDecorator):
@@ -137,6 +138,50 @@ class FxSvcThread(_SvcBase):
                 return _end(self)
 
 
+@service(flavour=asyncio)
+class FxSvcParked(_SvcBase):
+    """parks on an awaitable that nothing but its own task refers to"""
+
+    async def run(self):
+        emit("run-start", self.fx_name, flavour="asyncio", thread=threading.get_ident(), loop=id(asyncio.get_running_loop()))
+        try:
+            await asyncio.Event().wait()
+        except asyncio.CancelledError:
+            emit("cancelled", self.fx_name)
+            raise
+        finally:
+            emit("run-end", self.fx_name)
+
+
+@service(flavour=threading)
+class FxGc(_SvcBase):
+    """a service that forces garbage collections (as any allocation-heavy code does sooner or later)"""
+
+    def run(self):
+        import gc
+
+        emit("run-start", self.fx_name, flavour="threading", thread=threading.get_ident())
+        n = 0
+        while True:
+            time.sleep(self.period)
+            gc.collect()
+            n += 1
+            emit("beat", self.fx_name, n=n)
+
+
+@service(flavour=trio)
+class FxSvcQuiet(PoolDecorator):
+    """a silent service: only reports that it was started"""
+
+    def __init__(self, target, name="quiet"):
+        super().__init__(target)
+        self.fx_name = name
+
+    async def run(self):
+        emit("run-start", self.fx_name, flavour="trio")
+        await trio.sleep_forever()
+
+
 @service(flavour=trio)
 class FxSvcCtrl(Controller):
     """a controller service (head of a pipeline)"""
@@ -150,7 +195,7 @@ class FxSvcCtrl(Controller):
     run = FxSvcTrio.run
 '''
 MOD = "verifdaemon_fx"
-TAGS = ["FxPool", "FxDeco", "FxCtrl", "FxSvcAsyncio", "FxSvcTrio", "FxSvcThread", "FxSvcCtrl"]
+TAGS = ["FxPool", "FxDeco", "FxCtrl", "FxSvcAsyncio", "FxSvcTrio", "FxSvcThread", "FxSvcCtrl", "FxSvcParked", "FxGc", "FxSvcQuiet"]
 _ready = False
 
 
